@@ -144,6 +144,24 @@ TResize == /\ IsEv("Resize")
                  ELSE /\ (IF sound THEN DoSResize(h, q, e.res) ELSE DoResize(h, q, e.res))
                       /\ UNCHANGED <<asize, maps>> /\ Keep
 
+\* ubuf_pic_replace: e.W, e.H the size reported afterwards, e.size the new allocation, e.released whether the old
+\* area went back to its allocator
+TReplace == /\ IsEv("Replace")
+            /\ LET e == Tr[l]
+                   h == e.h
+                   q == [hskip |-> e.hskip, vskip |-> e.vskip, hsize |-> e.hsize, vsize |-> e.vsize]
+                   pred == ReplaceVerdict(geo, win[h], q)
+                   n == RNorm(geo, win[h], q)
+               IN IF ~Compat(pred, e.res)
+                  THEN Hard(IF e.res = "ok" THEN "Resize:replace-accepted" ELSE "Resize:replace-refused")
+                  ELSE IF e.res = "ok" /\ (e.W # n.nh \/ e.H # n.nv) THEN Hard("Report:size-after-replace")
+                  ELSE IF e.res = "ok" /\ e.released # (IF Owners(area[h]) = 1 THEN 1 ELSE 0)
+                       THEN Hard("Isolation:released")
+                  ELSE IF e.res = "ok" /\ e.guard # "ok" THEN Hard("Inside:guard")
+                  ELSE /\ DoReplace(h, q, e.res)
+                       /\ asize' = IF e.res = "ok" THEN Append(asize, e.size) ELSE asize
+                       /\ UNCHANGED maps /\ Keep
+
 TMap == /\ IsEv("Map")
         /\ LET e == Tr[l]
                h == e.h
@@ -324,7 +342,7 @@ TInit == /\ l = 1 /\ asize = <<>> /\ maps = {} /\ halt = FALSE
          /\ canv = <<>> /\ content = <<>> /\ nextk = 1
          /\ last = [op |-> "init", res |-> "ok"]
          /\ hist = <<>> /\ nops = 0 /\ nrs = 0 /\ pick = ""
-TNext == \/ TSkip \/ TReset \/ TMgr \/ TAlloc \/ TDup \/ TFree \/ TResize \/ TMap \/ TFill \/ TPoke
+TNext == \/ TSkip \/ TReset \/ TMgr \/ TAlloc \/ TDup \/ TFree \/ TResize \/ TReplace \/ TMap \/ TFill \/ TPoke
          \/ TCheck \/ TPeek \/ TView \/ TBRead \/ TBPoke \/ TEnd \/ TCrash \/ THang
 TSpec == TInit /\ [][TNext]_tvars
 
